@@ -3,6 +3,7 @@ import Pandora.Model.C08
 import Pandora.Model.C08Chan
 import Pandora.Model.C08Mach
 import Pandora.Model.C08Fault
+import Pandora.Model.C08Pick
 import Pandora.Spec.C08
 
 namespace Pandora.Drv.C08
@@ -40,19 +41,32 @@ structure Line where
   idle : Bool := false
   gate : Nat := 0
   faults : Spec.C08.Faults := {}
+  pick : Option (List Nat) := none   -- chosencases: ids of the listed entries
+  src : SrcKind := .file             -- generic JSON provider: the data source
+  fileN : Nat := 0                   -- entries of the file (`n` = entries of one pass: the chosen ones)
+
+def parseSrc : String → Option SrcKind
+  | "" => some .file | "file" => some .file | "inline" => some .inline | "rs" => some .readSeeker
+  | "rsc" => some .readSeekCloser | "pipe" => some .reader | "buf" => some .buffer | _ => none
 
 def parseLine (kv : List (String × String)) : Option Line := do
   let kind ← parseKind (getS kv "kind")
   let limit ← getN? kv "limit"
   let passes ← getN? kv "passes"
-  let n ← getN? kv "n"
+  let fileN ← getN? kv "n"
+  let pick ← match lookup kv "pick" with
+    | none => pure none
+    | some s => (parseNats s).map some
+  let src ← parseSrc (getS kv "src")
+  -- the entries of one pass: with a chosencases option the listed ones
+  let n := match pick with | some p => (chosenOf fileN p).length | none => fileN
   let cap ← getN? kv "cap"
   let mode ← parseMode (getS kv "mode")
   let cons := (getN? kv "cons").getD 1
   let shots := (getN? kv "shots").getD 0
   let pad := (getN? kv "pad").getD 0
   pure { inp := { kind, preload := getS kv "preload" == "1", b := ⟨limit, passes⟩, cancelAt := if cap = 0 then none else some cap },
-         n, cell := { limit, passes, n, cap, pad }, mode, cons, shots,
+         n, cell := { limit, passes, n, cap, pad, fileN := if pick.isSome then fileN else 0 }, mode, cons, shots, pick, src, fileN,
          idle := getS kv "idle" == "1", gate := (getN? kv "gate").getD 0,
          faults := { cfail := (getN? kv "cfail").getD 0, rfail := (getN? kv "rfail").getD 0,
                      rsticky := getS kv "rsticky" == "1", ofail := getS kv "ofail" == "1" } }
@@ -88,13 +102,25 @@ def showDrain (l : Line) (o : Spec.C08.Obs) (ops implEnd implRun : String) (fire
 /-- the two models of a drain cell agree: `Model.C08.run` (loops as fuel functions) and the small-step machine of
 `Model.C08Mach` under the drain schedule -/
 def modelsAgree (l : Line) : Bool :=
+  if l.pick.isSome || !l.src.seekable then true else   -- the machine has neither a filter nor sources
   match run l.inp l.n, runMach l.inp l.n with
   | some a, some b => a.delivered == b.delivered && a.run == b.run && a.sinkClosed == b.sinkClosed
   | none, none => true
   | _, _ => false
 
+/-- the sequential model of the cell: with a chosencases option `runPick` over the whole file, for a generic JSON cell
+`runSrc` over its data source, else `run` -/
+def runLine (l : Line) : Option (Outcome Nat) :=
+  match l.pick with
+  | some p => runPick l.inp l.fileN p
+  | none => if l.inp.kind == .genericJson then runSrc l.src l.inp l.n else run l.inp l.n
+
+/-- the cell as the provider sees it: a source that cannot be rewound is read once (`passes` = 1) -/
+def effCell (l : Line) : Spec.C08.Cell :=
+  if l.src.seekable then l.cell else { l.cell with passes := 1 }
+
 def modelDrain (l : Line) (ikv : List (String × String)) (fired : Option String := none) : String :=
-  let s := showDrain l (obsOf l.cell.cap 0 (run l.inp l.n)) (getS ikv "ops" "0") (getS ikv "end" "spinning") (getS ikv "run") fired
+  let s := showDrain l (obsOf l.cell.cap 0 (runLine l)) (getS ikv "ops" "0") (getS ikv "end" "spinning") (getS ikv "run") fired
   if modelsAgree l then s else s ++ " MODELS-DISAGREE(Model.C08.run vs Model.C08Mach.runMach)"
 
 def parseObs (kv : List (String × String)) : Option Spec.C08.Obs := do
@@ -163,6 +189,9 @@ def handle : Handler := fun input impl =>
   | none => ("-", "fail:driver:unparsable input")
   | some l =>
     if l.n = 0 then ("-", "skip:empty-file") else
+    if l.pick.isSome ∧ !l.inp.kind.hasFilter then ("-", "fail:driver:this kind has no chosencases option") else
+    if l.src != .file ∧ l.inp.kind != .genericJson then ("-", "fail:driver:only the generic JSON provider has a data source") else
+    if !l.src.seekable ∧ (l.mode != .drain ∨ l.faults.any) then ("-", "fail:driver:sources that cannot be rewound are only run in mode drain without faults") else
     let ikv := parseKV impl
     match lookup ikv "construct" with
     | some e =>
@@ -196,7 +225,13 @@ def handle : Handler := fun input impl =>
         if l.cell.cap = 0 ∧ !Spec.C08.bounded l.cell then ("-", "skip:unbounded-cell-without-cap") else
         match parseObs ikv with
         | none => (modelDrain l [], s!"fail:crash:{impl.take 120}")
-        | some o => (modelDrain l ikv, Spec.C08.judge l.cell o)
+        | some o =>
+          if l.src.seekable then (modelDrain l ikv, Spec.C08.judge l.cell o)
+          else
+            -- a source that cannot be rewound: the provider reads it once (model); where the property asks for more
+            -- than one pass that is a limitation of the source, not a finding
+            let v := Spec.C08.judge (effCell l) o
+            (modelDrain l ikv, if v == "ok" ∧ Spec.C08.judge l.cell o != "ok" then "skip:source-cannot-be-rewound" else v)
       | .ext | .tcan =>
         if l.cell.cap = 0 ∧ !Spec.C08.bounded l.cell then ("-", "skip:unbounded-cell-without-cap") else
         match parseObs ikv with
